@@ -73,3 +73,5 @@ func streamCacheF9(r *Run) {
 	}
 	cache.Close()
 }
+
+func init() { streams["alloc_f10"] = streamAllocF10 }
